@@ -3,6 +3,7 @@ import re
 from rules import agent as A
 from rules import agent_e2 as AE
 
+THOROUGH_CONFIGS = ("release", "arbitrary")
 LEVEL = "proof"
 
 # who may touch the transaction map and the cancellation flags (function level; what each writer does is its table)
